@@ -172,7 +172,7 @@ class Observer:
         self.a = cfg["action"]
         self.w = shape_width(cfg["shape"])
         self.mask = (1 << self.w) - 1
-        self.init = cfg.get("init", 0) & self.mask if self.a in ("RW", "RW1C", "RW1S") else 0
+        self.init = (cfg.get("init", 0) & self.mask) if self.a in ("RW", "RW1C", "RW1S") else (None if self.a.startswith("Res") else 0)
         self.ii = comp.in_index
         self.pi = comp.probe_index
         doms = [range(1 << w) if w <= 3 else sorted({t & ((1 << w) - 1) for t in WIDE_TOKENS}) for w in comp.in_widths]
@@ -192,8 +192,11 @@ class Observer:
             exp = {"w_data_out": w_data, "w_stb_out": w_stb}
             ns = s
         elif a.startswith("Res"):
-            exp = {"port_r_data": 0}
-            ns = s
+            # "reserved fields influence nothing": whatever the field presents must not depend on any input or
+            # on time; s remembers the first value seen (the value itself is not pinned by the property)
+            first = outs[pi["port_r_data"]] if s is None else s
+            exp = {"port_r_data": first}
+            ns = first
         else:
             exp = {"port_r_data": s, "data": s}
             if a == "RW":
@@ -267,6 +270,6 @@ def main(tier, seed):
 
 ASSUMPTIONS = [
     "Amaranth 0.5.10 front end, build_netlist and Simulator are the trusted base",
-    "rst held at 0",
+    "rst held at 0", "storage timing as documented by the actions (updated one clock cycle after the strobe / set / clear input)",
     "shapes up to 3 bits wide: all values of all ports enumerated; 5- and 8-bit shapes: 8 data tokens per port (0x00 0xFF 0x0F 0xF0 0x55 0xAA 0x80 0x01)",
 ]
